@@ -23,6 +23,7 @@ import (
 	"path/filepath"
 	"reflect"
 	"sort"
+	"strconv"
 	"strings"
 	"sync"
 	"sync/atomic"
@@ -171,16 +172,17 @@ const (
 var modeNames = []string{"shadow-first", "regular-first", "client-cancelled-first"}
 
 type caseSpec struct {
-	bes        []beSpec
-	ep         time.Duration
-	req        reqSpec
-	mode       int
-	fullcopy   bool
-	newOnly    bool
-	label      string
-	sequential bool   // the endpoint's pipelines are sequential merges with propagated values
-	seq        string // instance-reuse streams: which reused instance, and the position in its sequence
-	step       int
+	bes            []beSpec
+	ep             time.Duration
+	req            reqSpec
+	mode           int
+	fullcopy       bool
+	newOnly        bool
+	label          string
+	clientDeadline time.Duration // > 0: the deadline of the client context (endpoint timeout on the request context)
+	sequential     bool          // the endpoint's pipelines are sequential merges with propagated values
+	seq            string        // instance-reuse streams: which reused instance, and the position in its sequence
+	step           int
 }
 
 // ---- observations --------------------------------------------------------------------
@@ -236,7 +238,7 @@ type runState struct {
 	scribble        bool
 	orderNotImposed bool
 	cfgModified     bool
-	hold            *histHold // sequential-merge stream: 12 shapes of 3..4 backends whose regular and shadow pipelines are sequential merges with propagated values x 3 timings; long-history stream: shadow stubs hang until released
+	hold            *histHold // client-deadline stream: 18 cases, the client's context has a deadline of 2-6 ms, below the shadow timeout of 15-30 ms, with hanging shadow backends; requests carry the Content-Length header an endpoint forwards; sequential-merge stream: 12 shapes of 3..4 backends whose regular and shadow pipelines are sequential merges with propagated values x 3 timings; long-history stream: shadow stubs hang until released
 }
 
 // the shadow calls of a long history on one proxy: every stub announces itself and then hangs
@@ -793,7 +795,13 @@ func (inst *instance) call(spec *caseSpec, sequential bool) (res runResult) {
 	req := mkRequest(spec.req)
 	res.origHdr, res.origPar, res.origBody = mapPtr(req.Headers), mapPtr(req.Params), req.Body
 	res.origVals = valPtrs(req.Headers)
-	ctx, cancel := context.WithCancel(context.WithValue(context.WithValue(context.Background(), clientKey, "client-value"), stateKey, st))
+	base := context.WithValue(context.WithValue(context.Background(), clientKey, "client-value"), stateKey, st)
+	if spec.clientDeadline > 0 {
+		var stop context.CancelFunc
+		base, stop = context.WithTimeout(base, spec.clientDeadline)
+		defer stop()
+	}
+	ctx, cancel := context.WithCancel(base)
 	if spec.mode == mCancelFirst {
 		cancel()
 	}
@@ -1142,7 +1150,7 @@ func emitCase(spec *caseSpec, plain, shadowed runResult) emitted {
 		}
 	}
 	keys := []string{fmt.Sprintf("backends:%d", len(spec.bes)), fmt.Sprintf("shadows:%d", nsh)}
-	canon := fmt.Sprintf("%v|%s|%s|%d|%v|%v|%d|%v", spec.sequential, spec.label, spec.seq, spec.step, besJS, spec.ep, spec.mode, spec.req)
+	canon := fmt.Sprintf("%v|%v|%s|%s|%d|%v|%v|%d|%v", spec.clientDeadline, spec.sequential, spec.label, spec.seq, spec.step, besJS, spec.ep, spec.mode, spec.req)
 	if spec.req.body != nil {
 		canon += "|" + *spec.req.body
 	}
@@ -1194,6 +1202,10 @@ func emitCase(spec *caseSpec, plain, shadowed runResult) emitted {
 		"observed": map[string]interface{}{"factory_calls": shadowed.st.calls, "watchdog_fired": plain.st.watchdog || shadowed.st.watchdog, "caller_config_modified_by_New": plain.st.cfgModified || shadowed.st.cfgModified, "order_not_imposed": shadowed.st.orderNotImposed,
 			"plain_result": pj, "with_shadows_result": sj, "regular_backends_plain_run": prj, "regular_backends_with_shadows": srj, "shadow_backends": ssj}}
 	keys = append(keys, "level:call", "timing:"+modeNames[spec.mode])
+	if spec.clientDeadline > 0 {
+		js["client_context_deadline"] = spec.clientDeadline.String()
+		keys = append(keys, "stream:client-deadline")
+	}
 	if spec.sequential {
 		js["sequential_merge"] = true
 		keys = append(keys, "stream:sequential-merge")
@@ -1480,8 +1492,18 @@ func bigBody(n int) *string {
 }
 
 func defaultReq(body *string) reqSpec {
-	return reqSpec{method: "POST", hdr: map[string][]string{"Content-Type": {"application/json"}, "X-Multi": {"a", "b"}},
+	q := reqSpec{method: "POST", hdr: map[string][]string{"Content-Type": {"application/json"}, "X-Multi": {"a", "b"}},
 		qry: map[string][]string{"x": {"1"}, "y": {"2", "3"}}, par: map[string]string{"P1": "v1"}, body: body}
+	withContentLength(&q)
+	return q
+}
+
+// an endpoint that forwards Content-Length (input_headers "Content-Length" or "*") hands the
+// proxy the client's declared body size as a request header
+func withContentLength(q *reqSpec) {
+	if q.body != nil && len(*q.body) > 0 && q.hdr != nil {
+		q.hdr["Content-Length"] = []string{strconv.Itoa(len(*q.body))}
+	}
 }
 
 const longT = time.Hour
@@ -1580,8 +1602,12 @@ func main() {
 		return steps
 	}
 	stepReq := func(k int, body *string) reqSpec {
-		return reqSpec{method: "POST", hdr: map[string][]string{"X-Step": {fmt.Sprintf("s%d", k)}, "X-Multi": {"a", fmt.Sprintf("b%d", k)}},
+		q := reqSpec{method: "POST", hdr: map[string][]string{"X-Step": {fmt.Sprintf("s%d", k)}, "X-Multi": {"a", fmt.Sprintf("b%d", k)}},
 			qry: map[string][]string{"x": {fmt.Sprintf("%d", k)}}, par: map[string]string{"P1": fmt.Sprintf("v%d", k)}, body: body}
+		if k%2 == 0 {
+			withContentLength(&q)
+		}
+		return q
 	}
 
 	reg := func(method string, rout int) beSpec {
@@ -1863,7 +1889,15 @@ func main() {
 				for c := r.Intn(3); c > 0; c-- {
 					vs = append(vs, fmt.Sprintf("h%d", r.Intn(50)))
 				}
-				q.hdr[names[r.Intn(len(names))]] = vs
+				name := names[r.Intn(len(names))]
+				if name == "Content-Length" && r.Bool() {
+					// a declared size: right, wrong, zero
+					vs = []string{strconv.Itoa([]int{0, 1, 7, 300}[r.Intn(4)])}
+					if body != nil && r.Bool() {
+						vs = []string{strconv.Itoa(len(*body))}
+					}
+				}
+				q.hdr[name] = vs
 			}
 		}
 		if !r.Chance(1, 6) {
@@ -1962,6 +1996,34 @@ func main() {
 				}
 			}
 			addRebuild(fmt.Sprintf("rebuild-n%d-m%d", n, mask), &caseSpec{bes: bes, ep: time.Hour, req: defaultReq(bodies[1+r.Intn(4)]), mode: r.Intn(3), fullcopy: true}, 3)
+		}
+	}
+
+	// ---- 5e. the client's context carries a deadline EARLIER than the shadow timeout (the
+	// endpoint timeout the router puts on the request context) and a shadow backend hangs: it is
+	// released by the shadow timeout, not by the client's deadline and not never.  One regular
+	// backend (its stub does not look at the context, so the caller's result does not depend on
+	// when the client's deadline passes). ----
+	for _, shape := range []string{"RS", "SR", "SRS"} {
+		for mode := 0; mode < 3; mode++ {
+			for v := 0; v < 2; v++ {
+				bes := make([]beSpec, len(shape))
+				hung := false
+				for i, c := range shape {
+					if c == 'S' {
+						so := sHang
+						if hung {
+							so = []int{sOk, sHang}[v]
+						}
+						hung = true
+						bes[i] = shd("POST", []string{"15ms", "30ms"}[v], so)
+					} else {
+						bes[i] = reg("POST", []int{rPayload, rIncomplete, rErr}[(mode+v)%3])
+					}
+				}
+				add(&caseSpec{bes: bes, ep: time.Hour, req: defaultReq(bodies[2+v]), mode: mode, fullcopy: true,
+					clientDeadline: []time.Duration{2 * time.Millisecond, 6 * time.Millisecond}[v], label: "client-deadline"})
+			}
 		}
 	}
 
@@ -2114,5 +2176,5 @@ func main() {
 			w.Add(e.term, e.js, "", e.canon, e.nontr)
 		}
 	}
-	w.Close("corpus (GraphQL GET/POST shadow or regular next to plain backends, the shapes of shadow_test.go, empty request, degenerate configurations); every shape of the proxy extra_config entry (namespace absent / not a map / shadow flag absent, not a bool, true, false x shadow_timeout absent, not a string, 10 strings) next to regular backends; every split of 2..4 backends into >=1 regular and >=1 shadow x every shadow outcome vector {ok,error,garbage,hang}^s x 3 imposed timings (quick: 4 backends sampled 1/3), regular outcomes as in C01 and bodies drawn per case; random stream (random requests, methods, timeouts, GraphQL stages, 85% merge bound below the shadow timeout); instance reuse: ONE plain and ONE NewShadowFactory-built proxy per configuration serving a sequence of 4-6 requests that differ in body, headers, params, regular and shadow outcomes and timing (3 corpus sequences, every split of 2..3 backends x 2 random sequences, with and without hanging shadows), and 3 configurations hit by 12 goroutines x 40 iterations over 10 distinct inputs (each distinct observation emitted once). rebuild stream: every split of 2..4 backends, NewShadowFactory(f).New called 3 times on the SAME configuration value, each resulting proxy driven, deep snapshot of the caller's configuration compared after every New. sequential-merge stream: 12 shapes of 3..4 backends whose regular and shadow pipelines are sequential merges with propagated values x 3 timings; long-history stream: 2 configurations, one NewShadowFactory-built proxy serving 300 (thorough 1600) client calls while every shadow call so far is still hung, each client call must return without the hung shadow calls being released. Each case = one call of the plain factory's endpoint on the regular backends + one call of NewShadowFactory's endpoint. nontrivial = at least one shadow backend", true)
+	w.Close("corpus (GraphQL GET/POST shadow or regular next to plain backends, the shapes of shadow_test.go, empty request, degenerate configurations); every shape of the proxy extra_config entry (namespace absent / not a map / shadow flag absent, not a bool, true, false x shadow_timeout absent, not a string, 10 strings) next to regular backends; every split of 2..4 backends into >=1 regular and >=1 shadow x every shadow outcome vector {ok,error,garbage,hang}^s x 3 imposed timings (quick: 4 backends sampled 1/3), regular outcomes as in C01 and bodies drawn per case; random stream (random requests, methods, timeouts, GraphQL stages, 85% merge bound below the shadow timeout); instance reuse: ONE plain and ONE NewShadowFactory-built proxy per configuration serving a sequence of 4-6 requests that differ in body, headers, params, regular and shadow outcomes and timing (3 corpus sequences, every split of 2..3 backends x 2 random sequences, with and without hanging shadows), and 3 configurations hit by 12 goroutines x 40 iterations over 10 distinct inputs (each distinct observation emitted once). rebuild stream: every split of 2..4 backends, NewShadowFactory(f).New called 3 times on the SAME configuration value, each resulting proxy driven, deep snapshot of the caller's configuration compared after every New. client-deadline stream: 18 cases, the client's context has a deadline of 2-6 ms, below the shadow timeout of 15-30 ms, with hanging shadow backends; requests carry the Content-Length header an endpoint forwards; sequential-merge stream: 12 shapes of 3..4 backends whose regular and shadow pipelines are sequential merges with propagated values x 3 timings; long-history stream: 2 configurations, one NewShadowFactory-built proxy serving 300 (thorough 1600) client calls while every shadow call so far is still hung, each client call must return without the hung shadow calls being released. Each case = one call of the plain factory's endpoint on the regular backends + one call of NewShadowFactory's endpoint. nontrivial = at least one shadow backend", true)
 }
